@@ -92,7 +92,7 @@ class Soap12(Soap11):
         subelts = [
             None,  # The code tag is put here down the road
             reason,
-            E("{%s}Role" % self.ns_soap_env, inst.faultactor),
+            E("{%s}Role" % self.ns_soap_env, inst.faultactor or ""),
         ]
 
         return self._fault_to_parent_impl(ctx, cls, inst, parent, ns, subelts)
@@ -145,7 +145,7 @@ class Soap12(Soap11):
         subelts = [
             None,  # The code tag is put here down the road
             reason,
-            E("{%s}Role" % self.ns_soap_env, inst.faultactor),
+            E("{%s}Role" % self.ns_soap_env, inst.faultactor or ""),
         ]
 
         return self._fault_to_parent_impl(ctx, cls, inst, parent, ns, subelts)
